@@ -392,6 +392,11 @@ class CallsMixin(ExecBase):
             flag = fresh("raises_" + short.replace(".", "_"), BoolS)
             self.may_raise(st, flag, Exc(None, origin=name), node)
         st.log.append(CallRec(name, avals, kvals, res, node))
+        dep = self.opts.get("dependency_post", {}).get(name)
+        if dep is not None:
+            from .contracts import Clause
+            self.assume(st, self.eval_clause(Clause("dep_" + name, dep, "ensures"), {}, st, None, {"result": res}))
+            self.assumptions.add(f"assumed dependency contract on {name}: {dep.__doc__ or dep.__name__}")
         if result_cls is not None:
             r = st.new(Cell("obj", fields={}, cls=result_cls, lazy=True, path=f"new_{result_cls.name}!{len(st.log)}"))
             return r
@@ -401,7 +406,13 @@ class CallsMixin(ExecBase):
     def apply_contract(self, c: Contract, bound, st: State, node, qual):
         """Modular call: assert requires, havoc modifies, assume ensures (or take the exceptional exit)."""
         ln = getattr(node, "lineno", 0)
-        site = f"{self.fn_qual}@L{ln}->{qual.split(':')[-1]}"
+        cs = getattr(self, "call_sites", None)
+        if cs is None:
+            cs = self.call_sites = {}
+        key = (qual, id(node))
+        if key not in cs:
+            cs[key] = sum(1 for k_ in cs if k_[0] == qual)
+        site = f"{getattr(self, 'fn_site', self.fn_qual)}->{qual.split(':')[-1]}#{cs[key]}"
         for cl in c.requires_:
             goal = self.eval_clause(cl, bound, st, None, {})
             g = self.guard_cond()
